@@ -186,7 +186,7 @@ class FakeNet:
         """every fake socket is readable at once (its script decides what recv returns), except one whose script says PENDING: the peer accepted the
         connection and says nothing (a tarpit); when nothing is readable the call takes a little time, like a real select() with a timeout"""
         self.selects = getattr(self, 'selects', 0) + 1
-        if self.selects > getattr(self, 'select_budget', 20000):
+        if self.selects > getattr(self, 'select_budget', 3000):
             raise SystemExit(99)          # a hang: the audit keeps polling connections that will never answer
         ready = [s for s in rlist if isinstance(s, FakeSocket) and not (s.chunks and s.chunks[0] is PENDING)]
         if not ready and timeout:
